@@ -303,8 +303,8 @@ def classify(mode, hazard, symptom, detail, case, new_text, exc=None):
         return 'inline:nested-reference-to-same-function-left-behind'
     if hazard == 'deadcode_simplify':
         return 'inline:remove_dead_code:simplify-rewrites-or-rejects-condition'
-    if hazard == 'respell_array_dummy' and symptom in ('compile', 'differ') and \
-            re.search(r'\b(xin2?|yio|xv)\s*\(', kern_exec(lo_new)):
+    if hazard == 'respell_array_dummy' and (symptom == 'exception' or symptom in ('compile', 'differ') and
+                                            re.search(r'\b(xin2?|yio|xv)\s*\(', kern_exec(lo_new))):
         return 'inline:array-dummy-use-spelled-in-other-case-than-declaration'
     if hazard == 'fun_array_arg' and symptom in ('differ', 'compile', 'exception'):
         return 'inline:elemental-function-with-array-argument'
